@@ -4,7 +4,7 @@ emit('C15', '''C15 — Silent peers time out; healthy peers never do, for every 
    PARTIAL: "in a mesh with stable membership on a delivering network no healthy peer is ever timed
    out" combines interval_safe with message delivery; it is decided by the executed correspondence
    on heterogeneous meshes for the grid of timeout/keepalive values (py/props/c15.py).''',
- ['Base','Interval','IntervalProofs','NodeInfo','Table','TableProofs','Nonce','Replay','Core','Conn','PeerCrypto','Node','NodeProofs','ScheduleProofs','NextHopProofs','TickPeersProofs','FloodProofs','AnnounceProofs'],
+ ['Base','Interval','IntervalProofs','NodeInfo','Table','TableProofs','Nonce','Replay','Core','Conn','PeerCrypto','Node','NodeProofs','ScheduleProofs','NextHopProofs','TickPeersProofs','FloodProofs','AnnounceProofs','RedialProofs'],
  [('interval_safe','IntervalProofs.v','interval_safe','whenever a node schedules its next announcement the delay is at most one second or strictly shorter than every timeout its peers advertised'),
   ('node_schedule_safe','ScheduleProofs.v','announcement_schedule_safe','node level: the announcement step of housekeeping (C15_housekeep_expires_first shows where it sits) sets the next announcement to now + that interval, computed from the timeouts its current peers advertised'),
   ('reachable_announcement_reaches_every_peer','AnnounceProofs.v','reachable_announcement_reaches_every_peer','EVERY REACHABLE STATE ("healthy peers never time out" needs the announcements to go out): whenever an announcement is due, the housekeeping tick emits it to every node that is still a peer after the expiry and crypto phases of that very tick, once each - whether or not a later housekeeping step fails (c_hkfault): the announcement sits before the steps that can fail (hk3 = the node after expiry, table sweep and crypto housekeeping)'),
@@ -12,7 +12,18 @@ emit('C15', '''C15 — Silent peers time out; healthy peers never do, for every 
   ('keepalive_default','IntervalProofs.v','keepalive_default','the default keepalive is at least 1 and below the peer timeout'),
   ('expired_removed','NodeProofs.v','expired_peers_removed','a peer whose timeout passed is removed at the next housekeeping tick together with all its claims and learned entries'),
   ('housekeep_expires_first','NodeProofs.v','housekeep_starts_with_expire','housekeeping begins with that expiry phase (and re-dials the address)'),
+  ('expired_redialled','RedialProofs.v','housekeep_redials_expired','... and RE-DIALLED: the same housekeeping tick sends a fresh stage-1 handshake message (no payload) to the address of every peer it removes, whatever that peer advertised and whatever else the node holds - unless the address is one of the node\'s own or a handshake with it is already pending (the two cases in which connect_sock does nothing)'),
   ('backoff_bounds','IntervalProofs.v','backoff_step_ok','reconnect back-off: the delay stays within 1..3600 s, tries within 0..10, the next attempt lies in the future and at most one hour ahead'),
   ('backoff_init','IntervalProofs.v','backoff0_ok','initially'),
   ('backoff_forever','IntervalProofs.v','backoff_run_ok','and after any number of failed attempts: configured peers are retried indefinitely'),
- ])
+ ],
+ tail='''
+(* non-vacuity *)
+Example C15_ex_redial_premises : exists pd, aget (n_peers ex_b) 1001 = Some pd /\\ (p_timeout pd < 1000)%Z /\\
+  memN 1001 (n_own ex_b) = false /\\ ahas (n_pending ex_b) 1001 = false.
+Proof. exact ex_redial. Qed.
+
+Example C15_ex_announcement_due : (n_next_peers ex_b <= 5)%Z /\\
+  map dst_of (snd (broadcast (hk3 salts 5 ex_b) MESSAGE_TYPE_NODE_INFO (ni_encode (create_node_info (hk3 salts 5 ex_b))))) = [Some 1001].
+Proof. exact ex_announcement. Qed.
+''')
